@@ -364,16 +364,16 @@ func init() {
 	core.Register(&core.Check{
 		ID:    "C08",
 		Level: "exploration",
-		Rule:  "every configuration over the settings {a,b[,c]} with values from a menu of reference shapes (${x}, ${x}${x}, ${x}${y}, pre-${x}-post, ${x:lit}, ${x:${y}}, ${x:+alt}, ${x:+<${x}>}, ${x:?msg}, ${${x}}, ${p}, ${p.q}, ${p.r}) plus a nested group p.{q,r} (literal, reference to a top-level setting, to the sibling, to the group itself), with no resolver / a resolver that knows one name / all names, is read through String, CountField, Has, Unpack into map and struct, Child+getter, FlattenedKeys and CompareConfigs inside an isolated worker; the reference evaluator decides per setting value / cyclic / missing / user error; a second space reads 507 configurations in which two settings refer to a list, an object, their members, each other, themselves through a path walk, or hold lists/objects of such references (diamonds) into map, struct{A,B interface{}}, struct{A,B []interface{}} and the two mixed structs, through FlattenedKeys (exact multiset of keys), CompareConfigs, CountField and indexed String, against a substitution model; non-trivial = the reference graph has a cycle, a diamond or a repeated use",
+		Rule:  "every configuration over the settings {a,b[,c]} with values from a menu of reference shapes (${x}, ${x}${x}, ${x}${y}, pre-${x}-post, ${x:lit}, ${x:${y}}, ${x:+alt}, ${x:+<${x}>}, ${x:?msg}, ${${x}}, ${p}, ${p.q}, ${p.r}) plus a nested group p.{q,r} (literal, reference to a top-level setting, to the sibling, to the group itself), with no resolver / a resolver that knows one name / all names, is read through String, CountField, Has, Unpack into map and struct, Child+getter, FlattenedKeys and CompareConfigs inside an isolated worker; the reference evaluator decides per setting value / cyclic / missing / user error; a second space reads 676 configurations in which two settings refer to a list, an object, their members, each other, themselves through a path walk, or hold lists/objects of such references (diamonds) into map, struct{A,B interface{}}, struct{A,B []interface{}} and the two mixed structs, through FlattenedKeys (exact multiset of keys), CompareConfigs, CountField and indexed String, against a substitution model, and into a recursive struct type and a recursive map type (termination only: there only the configuration can end the recursion); a third space reads {a,b} (same menu over a,b,c) with an Env configuration that holds a and c (absent, literal, ${a}, ${c}, <${a}>, <${b}>, ${a:ed}, ${c:ed}) with and without a resolver: the same name in the two trees is two settings, so root a -> Env c -> Env a is no cycle; non-trivial = the reference graph has a cycle, a diamond or a repeated use",
 		Assumptions: []string{
 			"2 (quick) / 3 (thorough) mutually referencing top-level settings + the group; worker death (stack overflow, hang > 20 s) is a violation of the termination clause",
 			"values that involve the text form of an object are executed for termination only",
 		},
 		Spaces: func(tier string) []*core.Space {
 			if tier == "thorough" {
-				return []*core.Space{c08Containers(), c08Space("settings-a-b-c+group", []string{"a", "b", "c"}, false), c08Space("settings-a-b+group(full)", []string{"a", "b"}, true)}
+				return []*core.Space{c08Containers(), c08EnvSpace(), c08Space("settings-a-b-c+group", []string{"a", "b", "c"}, false), c08Space("settings-a-b+group(full)", []string{"a", "b"}, true)}
 			}
-			return []*core.Space{c08Containers(), c08Space("settings-a-b+group", []string{"a", "b"}, true)}
+			return []*core.Space{c08Containers(), c08EnvSpace(), c08Space("settings-a-b+group", []string{"a", "b"}, true)}
 		},
 	})
 }
